@@ -73,7 +73,9 @@ fn export_types(db: &DbIndex) -> Vec<Type> {
     let type_index = db.get_type_index();
     let module_index = db.get_module_index();
     let mut types = type_index.get_all_types();
-    types.sort_by(|a, b| a.get_full_name().cmp(b.get_full_name()));
+    // File-private (and workspace-internal) types of different files may share a full name:
+    // break the tie by the first declaration so that the key is unique per type.
+    types.sort_by(|a, b| type_sort_key(a).cmp(&type_sort_key(b)));
 
     types
         .into_iter()
@@ -139,6 +141,19 @@ fn export_globals(db: &DbIndex) -> Vec<Global> {
     globals.sort_by(|a, b| global_name(a).cmp(global_name(b)));
     globals.dedup_by(|b, a| global_name(a) == global_name(b));
     globals
+}
+
+fn type_sort_key(type_decl: &LuaTypeDecl) -> (&str, Option<(FileId, u32, u32)>) {
+    (
+        type_decl.get_full_name(),
+        type_decl.get_locations().first().map(|loc| {
+            (
+                loc.file_id,
+                loc.range.start().into(),
+                loc.range.end().into(),
+            )
+        }),
+    )
 }
 
 fn global_name(global: &Global) -> &str {
